@@ -14,6 +14,7 @@ package simhook
 import (
 	"fmt"
 	"reflect"
+	"runtime"
 	"sort"
 	"sync"
 	"sync/atomic"
@@ -347,3 +348,14 @@ func WGWait(wg *sync.WaitGroup) {
 	}
 	wg.Wait() // does not block any more; keeps the real happens-before edge
 }
+
+// Poll is what a blocking select does between two looks at its channels.
+func Poll() {
+	if BlockHook != nil {
+		BlockHook()
+		return
+	}
+	runtimeGosched()
+}
+
+func runtimeGosched() { runtime.Gosched() }
